@@ -494,3 +494,237 @@ def devirtualize(tree):
         ast.fix_missing_locations(tree)
         return sorted(wclasses)
     return []
+
+
+# ------------------------------------------------------------------------------------------------ value records kept in local containers
+def _value_record_classes(tree):
+    """private classes that are nothing but a constructor storing its parameters: {name: (fields in parameter order, defaults {field: expr})}"""
+    out = {}
+    for n in tree.body:
+        if not (isinstance(n, ast.ClassDef) and n.name.startswith('_') and not n.name.startswith('__') and not n.decorator_list and not n.keywords):
+            continue
+        if any(not (isinstance(b, ast.Name) and b.id == 'object') for b in n.bases):
+            continue
+        init = None
+        ok = True
+        for st in n.body:
+            if _docstring(st) or isinstance(st, ast.Pass):
+                continue
+            if isinstance(st, ast.Assign) and len(st.targets) == 1 and isinstance(st.targets[0], ast.Name) and st.targets[0].id == '__slots__':
+                continue
+            if isinstance(st, ast.FunctionDef) and st.name == '__init__' and not st.decorator_list and init is None:
+                init = st
+                continue
+            ok = False
+        if not ok or init is None:
+            continue
+        a = init.args
+        if a.vararg or a.kwarg or a.kwonlyargs or a.posonlyargs or len(a.args) < 2:
+            continue
+        slf = a.args[0].arg
+        params = [x.arg for x in a.args[1:]]
+        field_of = {}
+        for st in init.body:
+            if _docstring(st) or isinstance(st, ast.Pass):
+                continue
+            if isinstance(st, ast.Assign) and len(st.targets) == 1 and isinstance(st.targets[0], ast.Attribute) and isinstance(st.targets[0].value, ast.Name) \
+                    and st.targets[0].value.id == slf and isinstance(st.value, ast.Name) and st.value.id in params and st.value.id not in field_of:
+                field_of[st.value.id] = st.targets[0].attr
+                continue
+            ok = False
+        if not ok or set(field_of) != set(params) or len(set(field_of.values())) != len(params):
+            continue
+        defaults = {}
+        for p, d in zip(params[len(params) - len(a.defaults):], a.defaults):
+            if not _const_value(d):
+                ok = False
+            defaults[field_of[p]] = d
+        if ok:
+            out[n.name] = ([field_of[p] for p in params], defaults, params)
+    return out
+
+
+def tuple_records(tree):
+    """value records that only live in locals and local lists become tuples / field locals:
+         stack = [_V(root)] ; v = stack.pop() ; v.node ; stack.append(_V(n, expanded=True))
+      -> stack = [(root, False)] ; v__node, v__expanded = stack.pop() ; v__node ; stack.append((n, True))"""
+    recs = _value_record_classes(tree)
+    if not recs:
+        return []
+    done = []
+    for cname, (fields, defaults, params) in recs.items():
+        work = copy.deepcopy(tree)
+        try:
+            _tuple_record_class(work, cname, fields, defaults, params)
+        except _Skip:
+            continue
+        tree.body[:] = work.body
+        done.append(cname)
+    if done:
+        ast.fix_missing_locations(tree)
+    return done
+
+
+def _tuple_record_class(tree, cname, fields, defaults, params):
+    cls = [n for n in tree.body if isinstance(n, ast.ClassDef) and n.name == cname][0]
+    # instances are never modified: no attribute store to a field name anywhere outside the class (any object)
+    for n in ast.walk(tree):
+        if isinstance(n, ast.Attribute) and isinstance(n.ctx, (ast.Store, ast.Del)) and n.attr in fields and not any(x is n for x in ast.walk(cls)):
+            raise _Skip
+    hosts = []
+    for n in tree.body:
+        if isinstance(n, ast.FunctionDef):
+            hosts.append(n)
+        elif isinstance(n, ast.ClassDef) and n is not cls:
+            hosts.extend(m for m in n.body if isinstance(m, ast.FunctionDef))
+    for n in tree.body:
+        if n is cls or isinstance(n, ast.FunctionDef):
+            continue
+        if isinstance(n, ast.ClassDef):
+            for st in n.body:
+                if not isinstance(st, ast.FunctionDef) and any(isinstance(x, ast.Name) and x.id == cname for x in ast.walk(st)):
+                    raise _Skip
+            continue
+        if any(isinstance(x, ast.Name) and x.id == cname for x in ast.walk(n)):
+            raise _Skip
+
+    def ctor_tuple(call):
+        if any(isinstance(a, ast.Starred) for a in call.args) or any(k.arg is None or k.arg not in params for k in call.keywords) or len(call.args) > len(params):
+            raise _Skip
+        bound = dict(zip(params, call.args))
+        for k in call.keywords:
+            if k.arg in bound:
+                raise _Skip
+            bound[k.arg] = k.value
+        elts = []
+        for p, f in zip(params, fields):
+            if p in bound:
+                elts.append(bound[p])
+            elif f in defaults:
+                elts.append(copy.deepcopy(defaults[f]))
+            else:
+                raise _Skip
+        return ast.Tuple(elts=elts, ctx=ast.Load())
+
+    def is_ctor(e):
+        return isinstance(e, ast.Call) and isinstance(e.func, ast.Name) and e.func.id == cname
+
+    for h in hosts:
+        if not any(isinstance(x, ast.Name) and x.id == cname for x in ast.walk(h)):
+            continue
+        parents = {}
+        for x in ast.walk(h):
+            for c in ast.iter_child_nodes(x):
+                parents[id(c)] = x
+        hparams = {a.arg for a in h.args.posonlyargs + h.args.args + h.args.kwonlyargs}
+        # 1. containers: locals bound once to a list display of constructor calls
+        stores = {}
+        for x in ast.walk(h):
+            if isinstance(x, ast.Name) and isinstance(x.ctx, (ast.Store, ast.Del)):
+                stores.setdefault(x.id, []).append(x)
+        conts = set()
+        for x in ast.walk(h):
+            if isinstance(x, ast.Assign) and len(x.targets) == 1 and isinstance(x.targets[0], ast.Name) and isinstance(x.value, ast.List) \
+                    and all(is_ctor(e) for e in x.value.elts) and len(stores.get(x.targets[0].id, [])) == 1 and x.targets[0].id not in hparams:
+                conts.add(x.targets[0].id)
+        # 2. element variables: every binding is L.pop(..) / L[..] / a constructor call / a for target over L
+        typed = set()
+        for nm, sts in stores.items():
+            if nm in hparams or nm in conts:
+                continue
+            ok = True
+            for s_ in sts:
+                par = parents.get(id(s_))
+                if isinstance(par, ast.Assign) and par.targets == [s_]:
+                    v = par.value
+                    if is_ctor(v):
+                        continue
+                    if isinstance(v, ast.Call) and isinstance(v.func, ast.Attribute) and v.func.attr == 'pop' and isinstance(v.func.value, ast.Name) and v.func.value.id in conts:
+                        continue
+                    if isinstance(v, ast.Subscript) and isinstance(v.value, ast.Name) and v.value.id in conts and not isinstance(v.slice, ast.Slice):
+                        continue
+                    ok = False
+                elif isinstance(par, ast.For) and par.target is s_ and ((isinstance(par.iter, ast.Name) and par.iter.id in conts)
+                                                                         or (isinstance(par.iter, ast.Call) and isinstance(par.iter.func, ast.Name) and par.iter.func.id == 'reversed'
+                                                                             and len(par.iter.args) == 1 and isinstance(par.iter.args[0], ast.Name) and par.iter.args[0].id in conts)):
+                    continue
+                else:
+                    ok = False
+            if ok and sts:
+                typed.add(nm)
+        typed = {t for t in typed if any(True for _ in stores[t])}
+        # 3. every use must be of a recognised form
+        for x in ast.walk(h):
+            if isinstance(x, ast.Name) and x.id == cname:
+                par = parents.get(id(x))
+                if not (isinstance(par, ast.Call) and par.func is x):
+                    raise _Skip
+                gp = parents.get(id(par))
+                if isinstance(gp, ast.Assign) and gp.value is par and len(gp.targets) == 1 and isinstance(gp.targets[0], ast.Name) and gp.targets[0].id in typed:
+                    continue
+                if isinstance(gp, ast.List) and isinstance(parents.get(id(gp)), ast.Assign) and isinstance(parents[id(gp)].targets[0], ast.Name) and parents[id(gp)].targets[0].id in conts:
+                    continue
+                if isinstance(gp, ast.Call) and isinstance(gp.func, ast.Attribute) and gp.func.attr in ('append', 'insert') and isinstance(gp.func.value, ast.Name) \
+                        and gp.func.value.id in conts and gp.args and gp.args[-1] is par:
+                    continue
+                raise _Skip
+            if isinstance(x, ast.Name) and x.id in typed and isinstance(x.ctx, ast.Load):
+                par = parents.get(id(x))
+                if isinstance(par, ast.Attribute) and par.value is x and par.attr in fields and isinstance(par.ctx, ast.Load):
+                    continue
+                if isinstance(par, ast.Call) and isinstance(par.func, ast.Attribute) and par.func.attr in ('append', 'insert') and isinstance(par.func.value, ast.Name) \
+                        and par.func.value.id in conts and par.args and par.args[-1] is x:
+                    continue
+                raise _Skip
+            if isinstance(x, ast.Name) and x.id in conts and isinstance(x.ctx, ast.Load):
+                par = parents.get(id(x))
+                gp = parents.get(id(par)) if par is not None else None
+                if isinstance(par, ast.Attribute) and par.value is x and par.attr in ('append', 'pop', 'insert', 'clear', 'reverse') and isinstance(gp, ast.Call) and gp.func is par:
+                    if par.attr in ('append', 'insert') and not (is_ctor(gp.args[-1]) or (isinstance(gp.args[-1], ast.Name) and gp.args[-1].id in typed)):
+                        raise _Skip
+                    if par.attr == 'pop' and not (isinstance(parents.get(id(gp)), ast.Assign) and isinstance(parents[id(gp)].targets[0], ast.Name) and parents[id(gp)].targets[0].id in typed):
+                        raise _Skip
+                    continue
+                if isinstance(par, (ast.While, ast.If, ast.IfExp)) and par.test is x:
+                    continue
+                if isinstance(par, ast.UnaryOp) and isinstance(par.op, ast.Not):
+                    continue
+                if isinstance(par, ast.Call) and isinstance(par.func, ast.Name) and par.func.id in ('len', 'bool', 'reversed') and par.args == [x]:
+                    if par.func.id == 'reversed' and not (isinstance(gp, ast.For) and gp.iter is par):
+                        raise _Skip
+                    continue
+                if isinstance(par, ast.For) and par.iter is x:
+                    continue
+                if isinstance(par, ast.Subscript) and par.value is x and isinstance(par.ctx, ast.Load) and not isinstance(par.slice, ast.Slice) \
+                        and isinstance(gp, ast.Assign) and isinstance(gp.targets[0], ast.Name) and gp.targets[0].id in typed:
+                    continue
+                raise _Skip
+        existing = {x.id for x in ast.walk(h) if isinstance(x, ast.Name)} | hparams
+        for t in typed:
+            if any('%s__%s' % (t, f) in existing for f in fields):
+                raise _Skip
+
+        def locals_of(t, ctx):
+            return ast.Tuple(elts=[ast.Name(id='%s__%s' % (t, f), ctx=ctx()) for f in fields], ctx=ctx())
+
+        class T(ast.NodeTransformer):
+            def visit_Call(self, n):
+                self.generic_visit(n)
+                if is_ctor(n):
+                    return ast.copy_location(ctor_tuple(n), n)
+                return n
+
+            def visit_Attribute(self, n):
+                if isinstance(n.value, ast.Name) and n.value.id in typed and n.attr in fields and isinstance(n.ctx, ast.Load):
+                    return ast.copy_location(ast.Name(id='%s__%s' % (n.value.id, n.attr), ctx=ast.Load()), n)
+                return self.generic_visit(n)
+
+            def visit_Name(self, n):
+                if n.id in typed:
+                    return ast.copy_location(locals_of(n.id, ast.Store if isinstance(n.ctx, ast.Store) else ast.Load), n)
+                return n
+        T().visit(h)
+        ast.fix_missing_locations(h)
+    if any(isinstance(x, ast.Name) and x.id == cname for n in tree.body if n is not cls for x in ast.walk(n)):
+        raise _Skip
+    tree.body.remove(cls)
